@@ -1,35 +1,70 @@
 ---------------------------------- MODULE Edit ----------------------------------
 (* C10 model: the reference editor driven by every key sequence up to Depth over a small      *)
-(* alphabet, on a fixed-width display.  Laws checked: offset in range; the cursor is drawn     *)
-(* in the cell of the character at the offset; home/end idempotent; a vertical move keeps      *)
-(* the preferred column; unused keys are unhandled and change nothing.                         *)
+(* alphabet, on a fixed-width display with an alignment, wrap mode any or clip, and the view   *)
+(* of the focused widget shifted to the cursor.  Kind "int" is the integer variant (digits     *)
+(* only, leading zeros left of the cursor dropped).  Laws checked: offset in range; the cursor *)
+(* is drawn inside the widget, in the cell of the character at the offset, for every alignment *)
+(* and wrap mode; a click on the cursor cell keeps the offset; home/end idempotent; a vertical *)
+(* move keeps the text; unused keys are unhandled and change nothing; the integer variant      *)
+(* holds digits only, no zero in front of the number left of the cursor, and dropping zeros    *)
+(* keeps the digits behind the cursor.  View and Trim select deliberately wrong designs        *)
+(* ("noshift", "keepOnCancel"; "clampFirst") that TLC must refute.                             *)
 EXTENDS EditOps
 
-CONSTANTS Chars, W, Depth, Caption, Multiline
+CONSTANTS Chars, W, Depth, Caption, Multiline, Align, Wrap, Kind, Start, View, Trim
 
-VARIABLES st, n, lastkey, prev
-vars == <<st, n, lastkey, prev>>
+VARIABLES st, n, lastkey, prev, plain
+vars == <<st, n, lastkey, prev, plain>>
 
 CaptionDef == <<63>>
+NoCaption == <<>>
+StartEmpty == <<>>
+Start502 == <<53, 48, 50>>
+Start5002 == <<53, 48, 48, 50>>
+StartAbc == <<97, 98, 99, 100>>
 Opt == [multiline |-> Multiline, allow_tab |-> FALSE]
 Keys == {[k |-> "char", c |-> c, x |-> 0, y |-> 0] : c \in Chars}
         \cup {[k |-> kk, c |-> 0, x |-> 0, y |-> 0] : kk \in {"left", "right", "up", "down", "home", "end", "backspace", "delete", "enter", "f5"}}
         \cup {[k |-> "click", c |-> 0, x |-> x, y |-> y] : x \in 0..(W - 1), y \in 0..2}
 
-Stops(s) == ModelStops(Caption, s.text, W)
+\* what the focused widget shows: wrapped (or, clipped, one row per line), aligned, the cursor row shifted to the cursor
+Stops(s) == ViewStops(AlignStops(ModelStops(Caption, s.text, IF Wrap = "clip" THEN 99 ELSE W), W, Align), s.pos + Len(Caption), W, View)
 Cur(s) == CursorOf(Stops(s), s.pos + Len(Caption))
+RefK(s, key) == IF Kind = "int" THEN RefInt(s, key, Cur(s), Stops(s), Len(Caption), Opt, Trim) ELSE Ref(s, key, Cur(s), Stops(s), Len(Caption), Opt)
 
-Init == st = [text |-> <<>>, pos |-> 0, pref |-> -9] /\ n = 0 /\ lastkey = "init" /\ prev = st
+Init == st = [text |-> Start, pos |-> Len(Start), pref |-> -9] /\ n = 0 /\ lastkey = "init" /\ prev = st /\ plain = [text |-> Start, pos |-> Len(Start), used |-> FALSE]
 Next == /\ n < Depth /\ n' = n + 1
         /\ \E key \in Keys :
-             LET r == Ref(st, key, Cur(st), Stops(st), Len(Caption), Opt)
-             IN st' = [text |-> r.text, pos |-> r.pos, pref |-> r.pref] /\ lastkey' = key.k /\ prev' = st
+             LET stops == Stops(st)
+                 cur == CursorOf(stops, st.pos + Len(Caption))
+                 q == Ref(st, key, cur, stops, Len(Caption), Opt)
+                 r == IF Kind = "int" THEN RefInt(st, key, cur, stops, Len(Caption), Opt, Trim) ELSE q
+             IN /\ st' = [text |-> r.text, pos |-> r.pos, pref |-> r.pref] /\ lastkey' = key.k /\ prev' = st
+                /\ plain' = IF r.handled THEN [text |-> q.text, pos |-> q.pos, used |-> key.k # "click"] ELSE [text |-> st.text, pos |-> st.pos, used |-> FALSE]
 Spec == Init /\ [][Next]_vars
 
 PosInRange == st.pos >= 0 /\ st.pos <= Len(st.text)
-CursorOnChar == LET c == Cur(st)  row == Stops(st)[c[2] + 1] IN \E i \in 1..Len(row) : row[i][1] = st.pos + Len(Caption) /\ row[i][2] = c[1]
-HomeEndStayOnRow == lastkey \in {"home", "end"} => st.text = prev.text
-VerticalKeepsText == lastkey \in {"up", "down", "click"} => st.text = prev.text
+CursorLaws ==
+  LET stops == Stops(st)  p == st.pos + Len(Caption)  c == CursorOf(stops, p)
+      click == [k |-> "click", c |-> 0, x |-> c[1], y |-> c[2]]
+      r == IF Kind = "int" THEN RefInt(st, click, c, stops, Len(Caption), Opt, Trim) ELSE Ref(st, click, c, stops, Len(Caption), Opt)
+  IN [onchar |-> CursorOnStop(c, stops, p), inside |-> CursorInside(c, W, Len(stops)), click |-> r.pos = st.pos]
+CursorOnChar == CursorLaws.onchar
+CursorInsideWidget == CursorLaws.inside
+ClickOnCursorKeepsOffset == CursorLaws.click
+HomeEndStayOnRow == lastkey \in {"home", "end"} => (st.text = prev.text \/ Kind = "int")
+VerticalKeepsText == lastkey \in {"up", "down", "click"} => (st.text = prev.text \/ Kind = "int")
 UnusedKeyNoChange == lastkey = "f5" => (st.text = prev.text /\ st.pos = prev.pos)
-TextBound == Len(st.text) <= Depth
+\* the integer variant
+IntDigitsOnly == Kind = "int" => \A i \in 1..Len(st.text) : IsDigit(st.text[i])
+\* after a key the editor used (a click only moves the cursor) no zero in front of the number stands left of the cursor
+IntNoZeroLeftOfCursor == (Kind = "int" /\ plain.used) => (st.pos = 0 \/ st.text[1] # 48)
+\* what is dropped are zeros in front of the cursor, nothing else: the digits from the cursor on are those of the plain editor, the cursor
+\* moved left by the number of dropped characters, and the number did not change its value
+IntTrimKeepsDigits ==
+  Kind = "int" => LET d == Len(plain.text) - Len(st.text)
+                  IN /\ d >= 0 /\ st.pos = plain.pos - d
+                     /\ st.text = SubSeq(plain.text, d + 1, Len(plain.text))
+                     /\ \A i \in 1..d : plain.text[i] = 48
+TextBound == Len(st.text) <= Depth + Len(Start)
 =================================================================================
